@@ -383,6 +383,8 @@ def rule_pair_sync_flag(ctx):
     r = RuleResult('PAIR-sync-flag', 'every normal path from a successful set of Housekeeper.is_sync_running '
                    '(CAS false->true / store(true)) to return passes a store(false); nothing else writes the flag')
     ADT, FIELD = 'common::concurrent::housekeeper::Housekeeper', 'is_sync_running'
+    if not ctx.has_sync:
+        return r
     ctx.adt_field(ADT, FIELD)
     sites = _flag_sites(ctx, ADT, FIELD)
     fns = sorted({s[0] for s in sites})
@@ -779,6 +781,8 @@ def rule_const_logsizes(ctx):
     r = RuleResult('CONST-logsizes', 'compiler-evaluated: 0 < FLUSH_POINT <= LOG_SIZE for the read and the write log; '
                    'MAX_SYNC_REPEATS and batch sizes finite and > 0; channels are bounded by exactly these constants')
     C = ctx.prog.consts
+    if not ctx.has_sync:
+        return r
     pre = 'common::concurrent::constants::'
 
     def val(n):
@@ -832,6 +836,8 @@ def rule_housekeeper_lifetime(ctx):
     r = RuleResult('AUTH-housekeeper-lifetime', 'BaseCache.housekeeper is written only by Drop and is never constructed '
                    'as None: every handle that can run an operation has a housekeeper for maintenance')
     ADT = 'sync::base_cache::BaseCache'
+    if not ctx.has_sync:
+        return r
     ctx.adt_field(ADT, 'housekeeper')
     eff = ctx.eff
     writers = eff.who_has(('write', ADT, 'housekeeper'))
